@@ -71,6 +71,44 @@ CPUB_EXEMPT = {
 # user origin stored in them.  They keep the array claim and the "argument
 # object itself" lint; the dynamic monitor deep-compares their arguments.
 NONSTRICT = {
+    "reading.read_ET_data": "stores the caller's `it` / `vars` values in its own kwargs dict and nested catalogues; "
+                            "`absorb` taints every live container, so the nested stores into datar / its_missing "
+                            "cannot be separated from the caller's objects",
+    "reading.read_data": "dispatches to read_ET_data",
+    "reading.join_chunks": "regroups the caller's chunk arrays into nested dicts of its own; a subscript of those "
+                           "cannot be told from the caller's dict",
+    "reading.collect_overall_iterations": "updates its argument in place by design (see CPUB_EXEMPT)",
+    "reading.read_ET_group_or_var": "KNOWN FINDING C02 (see CPUB_EXEMPT)",
+    "reading.transform_vars_ET_to_aurel_groups": "KNOWN FINDING C02 (see CPUB_EXEMPT)",
+}
+# Kinds of sub-expressions the translator cannot infer (what kind of object a nested subscript denotes).
+# (function, source text of the expression) -> kind.  Each entry is a fact about the code as it is now.
+EXPR_KINDS = {
+    ("reading.collect_overall_iterations", "its_available['overall']"):
+        ("dict", "the dict assigned by `its_available['overall'] = {}` at the top of the same call"),
+    ("reading.iterations", "its_available[restart]"):
+        ("dict", "either the dict assigned by `its_available[restart] = {}` at the top of the loop body or one of "
+                 "the per-restart dicts parsed from iterations.txt by read_iterations"),
+    ("reading.read_ET_data", "its_available[restart]"):
+        ("dict<list<imm>>", "per-restart dict of the catalogue returned by iterations() in this call: every value is a "
+                       "list of numbers or strings (var available, its available, rl = n, checkpoints, it to do)"),
+    ("reading.read_ET_checkpoints", "data.setdefault(aurel_v, [])"):
+        ("list", "the default is a new list; an existing entry under a variable name was created by this same "
+                 "statement for an earlier iteration (the keys 'it' and 't' are not variable names)"),
+    ("reading.read_ET_checkpoints", "data['t']"):
+        ("list", "assigned `[]` in the display that creates `data` a few lines above"),
+    ("reading.read_ET_data", "datar[restart][av]"):
+        ("list", "datar[restart] is the dict returned by read_aurel_data in this call; `av` ranges over "
+                 "avar + ['t'], whose entries are the lists made by `{v: [] for v in var}` (never the 'it' array)"),
+}
+# Parameter kinds the docstrings state in prose only (assumption A1 as for docstring_kinds).
+PARAM_KINDS = {
+    ("reading.read_ET_group_or_var", "files"): ("list<imm>", "docstring: 'Each file is a string that identifies the file'"),
+    ("reading.read_ET_group_or_var", "variables"): ("list<imm>", "docstring: 'Each variable is a string'"),
+    ("reading.read_ET_variables", "var"): ("list<imm>", "docstring: the variables (names) to read"),
+    ("reading.read_ET_variables", "vars_and_files"):
+        ("dict<list<imm>>", "get_content docstring: maps tuples of variable names to lists of file paths"),
+    ("reading.read_ET_checkpoints", "var"): ("list<imm>", "docstring: the variables (names) to read"),
 }
 # Call sites whose callee is supplied by the user (callbacks): assumed not to
 # mutate their arguments; result may alias the arguments.
@@ -361,6 +399,8 @@ class FT:
         self.nvars = 1                    # variable 0 is reserved
         self.cur = []
         self.callbacks = []
+        self.varline, self.curline = {}, 0
+        self.used_expr_kinds = set()
         self.scope_kinds = {}
         self.parents = {}                 # local name -> names of the containers it was taken out of
         self.stored_through = set()       # local names through which something was stored / appended
@@ -401,6 +441,7 @@ class FT:
 
     def tmp(self):
         self.nvars += 1
+        self.varline[self.nvars - 1] = self.curline
         return self.nvars - 1
 
     def emit(self, *s):
@@ -646,6 +687,15 @@ class FT:
 
     # ------------------------------------------------------------- exprs
     def expr(self, n):
+        v, k = self.expr0(n)
+        if isinstance(n, (ast.Subscript, ast.Call)):
+            key = (self.fi.qname, ast.unparse(n))
+            if key in EXPR_KINDS:
+                self.used_expr_kinds.add(key)
+                k = EXPR_KINDS[key][0]
+        return v, k
+
+    def expr0(self, n):
         t = type(n)
         if t is ast.Constant:
             return IMM, K_IMM
@@ -1099,7 +1149,7 @@ class FT:
                 if m != "add":
                     for a in sv:
                         if a != IMM:
-                            self.emit("absorb", a)
+                            self.emit("absorb", rv, a)
                     sk = None
                     for _, k1 in stored:
                         sk = kjoin(sk, k1)
@@ -1200,9 +1250,6 @@ class FT:
         else:
             self.err(tgt, "unsupported assignment target")
 
-    def stored_direct_only(self):
-        return set()
-
     def container_kind(self, node, k):
         return kbase(k) in (K_LIST, K_DICT, K_SET)
 
@@ -1245,12 +1292,12 @@ class FT:
         elif self.container_kind(tgt.value, kb):
             self.emit("cmutate", b)
             if v != IMM:
-                self.emit("absorb", v)
+                self.emit("absorb", b, v)
             self.note_store(tgt.value, k)
         else:
             self.emit("mutate", b)
             if v != IMM:
-                self.emit("absorb", v)
+                self.emit("absorb", b, v)
             self.note_store(tgt.value, k)
 
     def aug_assign(self, s):
@@ -1263,7 +1310,8 @@ class FT:
             x = self.var(t.id)
             if k == K_IMM:
                 # number / string: rebinding, not mutation; the new value may be an array
-                self.note_kind(t.id, kjoin(K_IMM, kv) if kv != K_IMM else K_IMM)
+                # number (op)= unknown: a number or an array (number + list raises)
+                self.note_kind(t.id, K_IMM if kv == K_IMM else "arr?")
                 if kv != K_IMM:
                     nv, nk = self.fresh([], K_ARR)
                     self.emit("alias", x, nv)
@@ -1283,13 +1331,13 @@ class FT:
                 self.stored_through.add(t.id)
                 self.emit("cmutate", x)
                 if v != IMM:
-                    self.emit("absorb", v)
+                    self.emit("absorb", x, v)
                 return
-            self.note_kind(t.id, K_UNK)
+            # (an augmented assignment does not change what kind of object the name holds)
             self.stored_through.add(t.id)
             self.emit("mutate", x)
             if v != IMM:
-                self.emit("absorb", v)
+                self.emit("absorb", x, v)
             nv, _ = self.fresh([x, v], K_UNK)       # immutable left operand (tuple, number): rebinding
             self.emit("ite", [("alias", x, nv)], [])
             return
@@ -1304,6 +1352,10 @@ class FT:
                 self.emit("mutate", b)
                 return
             ek = (kelem(kb) or K_UNK) if kbase(kb) in CONTAINER_BASES else K_UNK
+            key = (self.fi.qname, ast.unparse(t))
+            if key in EXPR_KINDS:
+                self.used_expr_kinds.add(key)
+                ek = EXPR_KINDS[key][0]
             e, _ = self.viewof([b])
             # the element, if it is mutable, is updated in place ...
             if kbase(ek) in (K_LIST, K_SET, K_DICT):
@@ -1313,8 +1365,16 @@ class FT:
             # ... and stored back
             self.emit("cmutate" if self.container_kind(t.value, kb) else "mutate", b)
             if v != IMM:
-                self.emit("absorb", v)
-            self.note_store(t.value, kjoin(ek, kv) if kbase(ek) == kbase(kv) else (ek if kbase(ek) in CONTAINER_BASES else kjoin(ek, kv)))
+                self.emit("absorb", b, v)
+                self.emit("absorb", e, v)
+            # the element keeps its base type (list stays list, array stays array; a number may become an array)
+            rn = root_name(t.value)
+            if rn:
+                self.stored_through.add(rn)
+            if kbase(ek) in CONTAINER_BASES and kbase(ek) == kbase(kv):
+                self.note_store(t.value, kjoin(ek, kv))
+            elif ek == K_IMM and kv != K_IMM:
+                self.note_store(t.value, "arr?")
             return
         if isinstance(t, ast.Attribute):
             p = dotted(t)
@@ -1325,13 +1385,14 @@ class FT:
                 return
             self.emit("mutate", ov)
             if v != IMM:
-                self.emit("absorb", v)
+                self.emit("absorb", ov, v)
             return
         self.err(s, "unsupported augmented assignment target")
 
     def stmt(self, s):
         """emit statement; returns True if it may leave the enclosing loop body early (break/continue)"""
         t = type(s)
+        self.curline = getattr(s, "lineno", self.curline)
         if t is ast.Expr:
             if not (isinstance(s.value, ast.Constant)):
                 self.expr(s.value)
@@ -1467,7 +1528,14 @@ class FT:
         for i, p in enumerate(fi.params):
             if fi.fparams.get(p):
                 continue
-            self.emit("param", self.var(p), i)
+            if p in (fi.vararg, fi.kwarg):
+                # Python builds a new tuple / dict for *args / **kwargs at every call:
+                # the container is fresh, only its values come from the caller
+                t = self.tmp()
+                self.emit("param", t, i)
+                self.emit("join", self.var(p), [t])
+            else:
+                self.emit("param", self.var(p), i)
         body = [s for s in fi.node.body]
         self.block(body)
         return self.cur
@@ -1496,6 +1564,11 @@ def docstring_kinds(fi):
             out[m.group(1)] = K_DICT
         elif re.match(r"^list\b", ty) and " or " not in ty:
             out[m.group(1)] = kmk(K_LIST, K_IMM) if re.match(r"^list of (str|int|float)", ty) else K_LIST
+    for (q, p), (k, _) in PARAM_KINDS.items():
+        if q == fi.qname:
+            if p not in fi.params:
+                raise TranslationError("PARAM_KINDS: %s has no parameter %s" % (q, p))
+            out[p] = k
     return out
 
 
@@ -1521,8 +1594,9 @@ def translate_function(w, fi):
                     seen.add(par)
                     work.append(par)
         for nm in seen:
-            if nm in new and kbase(new[nm]) in CONTAINER_BASES and nm not in ft.stored_direct_only():
-                new[nm] = kbase(new[nm])
+            if nm in new and kbase(new[nm]) in CONTAINER_BASES and "<" in new[nm]:
+                e = kelem(new[nm])
+                new[nm] = kmk(kbase(new[nm]), kbase(e) if e else e)     # keep only "container of <base kind>"
         for p in fi.params:
             base = dk.get(p, K_UNK)
             new[p] = kjoin(base, new.get(p)) if p in new else base
@@ -1531,6 +1605,9 @@ def translate_function(w, fi):
                 raise TranslationError(ft.soft[0])
             fi.nvars = ft.nvars
             fi.callbacks = ft.callbacks
+            fi.varline = ft.varline
+            fi.used_expr_kinds = ft.used_expr_kinds
+            fi.kinds = kinds
             fi.retkind_new = ft.retkind
             fi.varnames = dict(ft.vars)
             return ir
@@ -1691,11 +1768,11 @@ def lean_stmt(s, fid):
         return "join %d %s" % (s[1], ls(s[2]))
     if tag == "view":
         return "view %d %s" % (s[1], ls(s[2]))
-    if tag in ("alias", "param", "cached", "glob", "store"):
+    if tag in ("alias", "param", "cached", "glob", "store", "absorb"):
         return "%s %d %d" % (tag, s[1], s[2])
     if tag == "call":
         return "call %d %d %s" % (s[1], fid[s[2]], ls(s[3]))
-    if tag in ("mutate", "cmutate", "absorb", "ret"):
+    if tag in ("mutate", "cmutate", "ret"):
         return "%s %d" % (tag, s[1])
     if tag == "ite":
         return "ite (%s) (%s)" % (lean_block(s[1], fid), lean_block(s[2], fid))
@@ -1726,13 +1803,19 @@ def count_stmts(b):
 def generate():
     w, irs, keyfns = build()
     order = order_functions(w)
+    used = set()
+    for q in order:
+        used |= getattr(w.funcs[q], "used_expr_kinds", set())
+    stale = set(EXPR_KINDS) - used
+    if stale:
+        raise TranslationError("EXPR_KINDS entries no longer match the source: %s" % sorted(stale))
     fid = {q: i for i, q in enumerate(order)}
     flags = {}
     for q in order:
         fi = w.funcs[q]
         reading = fi.module == "reading"
         pub = is_public(fi) and q != ANYKEY
-        cpub = reading and pub and q not in CPUB_EXEMPT
+        cpub = reading and pub and q not in CPUB_EXEMPT and q not in NONSTRICT
         strict = reading and q not in NONSTRICT
         flags[q] = (pub, cpub, strict)
     out = ["-- GENERATED by tools/py2lean/aliasir.py from src/aurel/{core,maths,finitedifference,numerical,time,reading}.py",
